@@ -222,7 +222,9 @@ def gen_template(rng, pv, depth):
     for _ in range(rng.randint(0, 4)):
         if pv["many"] and rng.random() < 0.4:
             v = S.vsym(rng.choice(pv["many"]))
-            sub = v if rng.random() < 0.6 else rng.choice([S.vlist([S.vsym("tag"), v]), S.vlit([v, S.vint(0)]), S.vlist([v, v])])
+            # (constants of a sub-template may be any identifiers - a literal of the macro included)
+            tag = S.vsym(rng.choice(["tag", "lit", "else"]))
+            sub = v if rng.random() < 0.5 else rng.choice([S.vlist([tag, v]), S.vlit([v, S.vint(0)]), S.vlist([v, v]), S.vlist([v, tag, S.vlist([tag])])])
             items += [sub, S.vsym("...")]
         else:
             items.append(gen_template(rng, pv, depth - 1))
